@@ -297,6 +297,25 @@ def timesHypB (o : OutputTimes) : Bool :=
   | some ts => o.d.get c!"num_times_specified" == some (.int (Int.ofNat ts.length)) && ts.all (· != .none)
   | none => false
 
+def rockLevelB (rt : Rock) : Int := match rt.nad with | .int k => k | _ => 0
+def goodRockB (rt : Rock) : Bool :=
+  (match rt.name with | .str nm => nm.length == 5 && !nm.contains '\n' && !isBlank nm | _ => false) &&
+  (match rt.nad with | .none => true | .int _ => true | _ => false) && rt.perm.length == 3 &&
+  (rockLevelB rt < 2 || ((match rt.rp with | some p => p.params.length ≤ 7 | none => false) &&
+                         (match rt.cp with | some p => p.params.length ≤ 7 | none => false)))
+def tableLenB (g : Gener) : Nat :=
+  match tableTimes g.ltab g.type with
+  | .ok (some k) => if k ≤ 1 then 0 else k
+  | _ => 0
+def goodGenerB (g : Gener) : Bool :=
+  goodNameB g.block && g.name.length == 5 && !(unfixBlockname g.name).contains '\n' &&
+  (match g.ltab with | .int _ => true | .none => true | _ => false) &&
+  (match g.itab with
+   | .str s => tableLenB g == 0 ||
+       (g.time.length == tableLenB g && g.rate.length == tableLenB g &&
+        (if isBlank s then g.enthalpy.isEmpty else g.enthalpy.length == tableLenB g))
+   | _ => false)
+
 def handleHyp (obj : List String) : String :=
   match parseJ obj with
   | some (j, []) =>
@@ -306,7 +325,8 @@ def handleHyp (obj : List String) : String :=
       let names := d.blocks.map (fun b => cycleNameB b.name)
       let cnt := fun (l : List Bool) => s!"{(l.filter id).length}/{l.length}"
       let hist := (d.historyBlock ++ d.historyGen).map (fun i => i.name.length == 5 && !isBlank (unfixBlockname i.name))
-      "ok GoodBlock " ++ cnt (d.blocks.map (goodBlockB d.rocks)) ++ " GoodConn " ++ cnt (d.conns.map (goodConnB names)) ++
+      "ok GoodRock(structural) " ++ cnt (d.rocks.map goodRockB) ++ " GoodGener(structural) " ++ cnt (d.gens.map goodGenerB) ++
+        " GoodBlock " ++ cnt (d.blocks.map (goodBlockB d.rocks)) ++ " GoodConn " ++ cnt (d.conns.map (goodConnB names)) ++
         " GoodName(INCON) " ++ cnt (d.incon.map (fun e => goodNameB e.name)) ++ " Visible(FOFT,GOFT) " ++ cnt hist ++
         " TIMES " ++ cnt (if d.outputTimes.isEmpty then [] else [timesHypB d.outputTimes])
   | _ => "bad-request"
